@@ -279,7 +279,17 @@ pub fn tree_walker(
             // over what this very run has just put there is at best
             // pointless and at worst writes through a just-created
             // link or into a file another worker is still writing.
-            if !meta.is_dir() {
+            if meta.is_dir() {
+                // A directory cannot take the place of something this
+                // run has just created either (its contents would be
+                // written through a just-created link).
+                if produced.contains_key(&target) {
+                    let msg = "Will not overwrite a destination created by this same copy.";
+                    stats.send(StatusUpdate::Error(
+                        XcpError::DestinationExists(msg, target)))?;
+                    return Err(XcpError::EarlyShutdown(msg).into());
+                }
+            } else {
                 match produced.get(&target) {
                     None => {
                         produced.insert(target.clone(), from.clone());
